@@ -57,6 +57,8 @@ def real_update_kwargs(spec):
             out[k] = _fresh_callable(refmodel.UPD_FN[v[1]])
         elif isinstance(v, dict):
             out[k] = dict(v)
+        elif refmodel.is_oneshot(v):
+            out[k] = iter(list(v[1]))
         elif isinstance(v, tuple):
             out[k] = list(v)
         else:
@@ -286,6 +288,31 @@ class World:
             if ast is None:
                 return tgt.update_all(**kw)
             return tgt.update(qast.build(ast), **kw)
+        if k == "query_raise":
+            _, call, trig, meas, via = op
+            from tinyflux import TagQuery
+
+            def picky(v):
+                if v == trig:
+                    raise RuntimeError("user test function failed")
+                return True
+
+            q = TagQuery().a.test(picky)
+            tgt = self._target(via)
+            scoped = via == "db" and meas is not None
+            if call == "update":
+                kw = {"tags": {"b": A.q}}
+                if scoped:
+                    kw["_measurement"] = meas
+                return tgt.update(q, **kw)
+            if call == "remove":
+                return tgt.remove(q, meas) if scoped else tgt.remove(q)
+            if call == "search":
+                return len(tgt.search(q, meas) if scoped else tgt.search(q))
+            if call == "select":
+                return len(tgt.select("tags.a", q, meas) if scoped else tgt.select("tags.a", q))
+            r = getattr(tgt, call)(q, meas) if scoped else getattr(tgt, call)(q)  # count / contains / get
+            return r if call != "get" or r is None else refmodel.rp_of_point(r)
         if k == "update_badret":
             _, ast, attr, pre_attr, meas, via = op
             kw = {}
@@ -371,7 +398,10 @@ NONMUTATING = READ_OPS + ("reindex", "reopen", "handle")
 #        nth invocation, optionally preceded in the same call by a successful static ``pre_attr``
 #   ("update_badret", ast|None, attr, pre_attr|None, meas, via)   callable returns an invalid value
 #   ("bad_args", kind)                                invalid argument combinations
-FAULT_OPS = ("bad_insert", "bad_insert_multiple", "update_raise", "update_badret", "bad_args")
+#   ("query_raise", call, trigger, meas, via)
+#        update / remove / count / contains / get / search / select with the query TagQuery().a.test(f) where the
+#        user's f raises RuntimeError on the tag value ``trigger`` and is True otherwise (the update sets tag b)
+FAULT_OPS = ("bad_insert", "bad_insert_multiple", "update_raise", "update_badret", "bad_args", "query_raise")
 BAD_VALUES = {"int": lambda: 3, "str": lambda: "p", "None": lambda: None, "dict": lambda: {"time": 1}}
 
 
@@ -450,7 +480,7 @@ def ref_apply(op, contents, alpha, now=common.CLOCK_START):
         if refmodel.select(C, pred, m):
             return C, ("exc",)
         return C, ("ret", 0)
-    if k in ("bad_insert", "bad_args"):
+    if k in ("bad_insert", "bad_args", "query_raise"):
         return C, ("exc",)
     if k == "select":
         return C, ("ret", refmodel.select_keys(C, list(op[1]) if isinstance(op[1], tuple) else op[1], op[2], op[3]))
@@ -476,6 +506,11 @@ def fault_enabled(op, contents):
         m = meas if via == "db" else via[2:]
         pred = (lambda rp: True) if ast is None else refmodel.q_pred(ast)
         return len(refmodel.select(contents, pred, m)) >= max(nth, 1)
+    if op[0] == "query_raise":
+        # the user's function is certainly reached when a point in scope carries the trigger value
+        _, call, trig, meas, via = op
+        m = meas if via == "db" else via[2:]
+        return any(rp[2].get("a") == trig and (m is None or rp[1] == m) for rp in contents)
     return True
 
 
